@@ -316,6 +316,54 @@ fn gen_val_inner(rng: &mut Rng, env: &Env, ty: &Ty, cfg: &ValCfg, budget: &mut i
 	}
 }
 
+/// every string / bytes value inside `v` gets exactly `len` bytes (deterministic content)
+pub fn set_str_len(v: &mut Val, len: usize, salt: u64) {
+	match v {
+		Val::Str(s) => *s = (0..len).map(|i| (b'a' + ((i as u64 * 7 + len as u64 + salt) % 26) as u8) as char).collect(),
+		// (incompressible)
+		Val::Bytes(b) => *b = Rng::from_seed(salt ^ ((len as u64) << 32)).bytes(len),
+		Val::Array(items) => items.iter_mut().for_each(|x| set_str_len(x, len, salt)),
+		Val::Map(items) => items.iter_mut().for_each(|(_, x)| set_str_len(x, len, salt)),
+		Val::Record(items) => items.iter_mut().for_each(|x| set_str_len(x, len, salt)),
+		Val::Union(_, x) => set_str_len(x, len, salt),
+		_ => {}
+	}
+}
+
+/// `n` small values for a LONG history, a pure function of the arguments. `pattern` shapes the sizes of the strings /
+/// bytes inside them over the course of the history: 0 random small, 1 constant, 2 growing, 3 shrinking, 4 small with a
+/// big one every 16 / 64 / 255 / 256 / 257 / 1024 values, 5 sawtooth, 6 one to two KiB each — what recycled, trimmed or capped buffers and
+/// high-water marks react to.
+pub fn gen_long_vals(seed: u64, env: &Env, ty: &Ty, n: u32, pattern: u8) -> Vec<Val> {
+	let mut r = Rng::from_seed(seed);
+	let vcfg = ValCfg { max_len: 3, max_depth: 3, budget: 10, str_boost: 0, scale: None };
+	let p1 = r.usize(40);
+	let d = *r.pick(&[1usize, 2, 4, 16]);
+	let period = *r.pick(&[16usize, 64, 255, 256, 257, 1024]);
+	let off = r.usize(3);
+	let big = *r.pick(&[200usize, 1000, 9000]);
+	let m = 2 + r.usize(300);
+	(0..n as usize)
+		.map(|i| {
+			let mut v = gen_val(&mut r, env, ty, &vcfg);
+			let len = match pattern {
+				1 => Some(p1),
+				2 => Some(i / d),
+				3 => Some((n as usize - i) / d),
+				4 => Some(if (i + off) % period == 0 && i > 0 { big } else { p1 % 8 }),
+				5 => Some(i % m),
+				// one to two KiB each, never two alike in a row (bytes are incompressible: blocks that no codec shrinks)
+				6 => Some(1024 + (i * 37 + p1) % 700),
+				_ => None,
+			};
+			if let Some(l) = len {
+				set_str_len(&mut v, l, i as u64);
+			}
+			v
+		})
+		.collect()
+}
+
 pub fn decimal_to_string(unscaled: i128, scale: u32) -> String {
 	let neg = unscaled < 0;
 	let digits = unscaled.unsigned_abs().to_string();
